@@ -159,6 +159,12 @@ func ParsePodNetworkAnnotation(podNetworks string) ([]*NetworkSelectionElement, 
 			return nil, fmt.Errorf("parsePodNetworkAnnotation: failed to parse pod Network Attachment Selection "+
 				"Annotation JSON format: %v", err)
 		}
+		for _, network := range networks {
+			if network == nil {
+				return nil, fmt.Errorf("parsePodNetworkAnnotation: null network in pod Network Attachment Selection "+
+					"Annotation %s", podNetworks)
+			}
+		}
 	} else {
 		// Comma-delimited list of network attachment object names
 		for _, item := range strings.Split(podNetworks, ",") {
